@@ -584,6 +584,13 @@ class BlockCtx(object):
         return out
 
 
+def written_form(c, p):
+    """the form= attribute a local element declaration carries in block context c"""
+    if p.qualified is not None and (p.qualified != c.qual_default or c.plan.redundant):
+        return p.qualified
+    return None
+
+
 def write_particle(c, p, ind):
     red = c.plan.redundant
     if isinstance(p, CE):
@@ -606,7 +613,7 @@ def write_particle(c, p, ind):
             a += ' nillable="true"'
         if p.default is not None:
             a += ' default="%s"' % p.default
-        if p.qualified is not None and (p.qualified != c.qual_default or red):
+        if written_form(c, p) is not None:
             a += ' form="%s"' % ("qualified" if p.qualified else "unqualified")
         if p.anon is not None:
             return "%s<%s%s>\n%s\n%s</%s>" % (ind, c.x("element"), a, write_type(c, p.anon, ind + "  "), ind, c.x("element"))
@@ -978,10 +985,194 @@ def decode_reply(client, port, opname, reply, kept):
 
 
 # ---------------------------------------------------------------------------
+# (4) the concrete schema as a Coq literal, and suds' schema objects observed
+# ---------------------------------------------------------------------------
+
+class AbsPrinter(object):
+    """family.CoqPrinter with the types an interface allows to be anonymous
+    abstracted to TBuiltin (their content is compared at message level only)."""
+
+    def __init__(self, iface, I):
+        from . import family as F
+        self.iface = iface
+        self.P = F.CoqPrinter(iface.S, I)
+        orig = self.P.tref
+
+        def tref(tr):
+            if tr[0] == "n" and (tr[1], tr[2]) in iface.anonymizable:
+                return "TBuiltin"
+            return orig(tr)
+        self.P.tref = tref
+
+    def schema(self):
+        return self.P.schema()
+
+
+def concrete_lit(iface, plan, blocks, I):
+    S = iface.S
+
+    def tref(tr, anon):
+        if anon is not None or tr[0] == "b" or (tr[1], tr[2]) in iface.anonymizable:
+            return "TBuiltin"
+        return "(TNamed %s %s)" % (cN(tr[1] + 1), cN(I(tr[2])))
+
+    def qn(r):
+        return "(%s, %s)" % (cN(r[0] + 1), cN(I(r[1])))
+
+    def dflt(d):
+        return copt(cN(I("text:" + d)) if d is not None else None, "N")
+
+    def part(c, p):
+        if isinstance(p, CE):
+            if p.ref is not None:
+                return "(CRef %s %s %s)" % (qn(p.ref), cbool(p.opt), cbool(p.multi))
+            f = written_form(c, p)
+            return "(CEl %s %s %s %s %s %s %s)" % (cN(I(p.name)), tref(p.tref, p.anon), cbool(p.opt), cbool(p.multi),
+                                                 cbool(p.nillable), dflt(p.default),
+                                                 copt(cbool(f) if f is not None else None, "bool"))
+        if isinstance(p, CAnyP):
+            return "CAnyP"
+        if isinstance(p, CG):
+            return "(CGrp %s %s)" % (qn(p.ref), cbool(p.opt))
+        kind = {"sequence": "KSeq", "choice": "KChoice", "all": "KAll"}[p.kind]
+        return "(CCont %s %s %s)" % (kind, cbool(p.opt), clist([part(c, k) for k in p.kids], "cpart"))
+
+    def attr(a):
+        if isinstance(a, CAG):
+            return "(CAGrp %s)" % qn(a.ref)
+        return "(CAt (mkA %s %s %s))" % (cN(I(a.name)), cbool(a.required), dflt(a.default))
+
+    out = []
+    for ns, b, ds in blocks:
+        c = BlockCtx(plan, iface, ns, b)
+        dl = []
+        for _, d in ds:
+            if isinstance(d, CT):
+                dl.append("(DType %s %s %s %s)" % (cN(I(d.name)), copt(qn(d.base) if d.base else None, "qn"),
+                                                   clist([part(c, p) for p in d.content], "cpart"),
+                                                   clist([attr(a) for a in d.attrs], "cattr")))
+            elif isinstance(d, CE):
+                dl.append("(DElem %s %s %s %s)" % (cN(I(d.name)), tref(d.tref, d.anon), cbool(d.nillable), dflt(d.default)))
+            elif isinstance(d, CGroupDef):
+                dl.append("(DGroup %s %s)" % (cN(I(d.name)), part(c, d.content)))
+            else:
+                dl.append("(DAGroup %s %s)" % (cN(I(d.name)), clist([attr(a) for a in d.attrs], "cattr")))
+        out.append("(mkBlock %s %s %s)" % (cN(ns + 1), cbool(c.qual_default), clist(dl, "cdecl")))
+    return clist(out, "cblock")
+
+
+def sx_tref(iface, t):
+    ti = type_id(iface, t)
+    if ti[0] in ("anon", XSD_NS) or ti[0] == "!":
+        return ("b",) if ti[0] != "!" else ("!", ti[1])
+    for i, (u, _) in enumerate(iface.S.namespaces):
+        if u == ti[0]:
+            return ("n", i, ti[1])
+    return ("!", repr(ti))
+
+
+def obs_schema(iface, client):
+    """What suds' dereferenced schema objects iterate to, for every type that
+    keeps its name and every global element the operations use."""
+    S = iface.S
+    sch = client.wsdl.schema
+    types = []
+    for t in S.types:
+        if (t.ns, t.name) in iface.anonymizable:
+            continue
+        try:
+            x = sch.types.get((t.name, S.namespaces[t.ns][0]))
+            if x is None:
+                types.append(((t.ns, t.name), None))
+                continue
+            kids = []
+            for c, anc in x.children():
+                anc_opt = any(a.optional() for a in anc)
+                if c.any():
+                    kids.append(("any", anc_opt))
+                else:
+                    kids.append((c.name, c.namespace()[1], bool(c.form_qualified), sx_tref(iface, c), bool(c.optional()),
+                                 bool(c.multi_occurrence()), bool(c.nillable), c.default, anc_opt,
+                                 any(a.choice() for a in anc)))
+            attrs = [(a.name, not a.optional(), a.default) for a, _ in x.attributes()]
+            types.append(((t.ns, t.name), (kids, attrs)))
+        except Exception as e:  # noqa
+            types.append(((t.ns, t.name), ("!", type(e).__name__)))
+    elems = []
+    for op in iface.ops:
+        names = []
+        if op.style == "wrapped":
+            names.append((op.name, ("n",) + tuple(op.in_type)))
+        elif op.style == "bare":
+            names.extend(op.parts)
+        if op.out_type is not None:
+            names.append((op.name + "Response", ("n",) + tuple(op.out_type)))
+        for nm, tr in names:
+            try:
+                e = sch.elements.get((nm, S.namespaces[0][0]))
+                if e is None:
+                    elems.append((nm, tr, None))
+                else:
+                    elems.append((nm, tr, (e.namespace()[1], bool(e.form_qualified), sx_tref(iface, e), bool(e.nillable))))
+            except Exception as ex:  # noqa
+                elems.append((nm, tr, ("!", type(ex).__name__)))
+    return types, elems
+
+
+def schema_view_lits(iface, I, view):
+    """-> (list of (qn, option view) literal, list of gcase tails)"""
+    from . import family as F
+    S = iface.S
+
+    def nsid(u):
+        return cN(F.ns_to_id(S, u))
+
+    def tref(tr):
+        if tr[0] == "b":
+            return "TBuiltin"
+        if tr[0] == "n":
+            return "(TNamed %s %s)" % (cN(tr[1] + 1), cN(I(tr[2])))
+        return "(TNamed 998 %s)" % cN(I("#error:" + repr(tr)))
+
+    def abs_tref(tr):
+        if tr[0] == "b" or (tr[1], tr[2]) in iface.anonymizable:
+            return "TBuiltin"
+        return "(TNamed %s %s)" % (cN(tr[1] + 1), cN(I(tr[2])))
+
+    types, elems = view
+    tl = []
+    for (ns, name), v in types:
+        if v is None or v[0] == "!":
+            lit = "None"
+        else:
+            kids = []
+            for k in v[0]:
+                if k[0] == "any":
+                    kids.append("(FAny %s)" % cbool(k[1]))
+                else:
+                    nm, u, qual, tr, opt, multi, nil, dflt, anc_opt, ch = k
+                    kids.append("(FE (mkE %s %s %s %s %s %s %s %s) %s %s)" % (
+                        cN(I(nm)), nsid(u), cbool(qual), tref(tr), cbool(opt), cbool(multi), cbool(nil),
+                        copt(cN(I("text:" + dflt)) if dflt is not None else None, "N"), cbool(anc_opt), cbool(ch)))
+            attrs = ["(mkA %s %s %s)" % (cN(I(a)), cbool(req), copt(cN(I("text:" + d)) if d is not None else None, "N"))
+                     for a, req, d in v[1]]
+            lit = "(Some (%s, %s))" % (clist(kids, "fchild"), clist(attrs, "adecl"))
+        tl.append("((%s, %s), %s)" % (cN(ns + 1), cN(I(name)), lit))
+    el = []
+    for nm, tr, v in elems:
+        if v is None or v[0] == "!":
+            lit = "None"
+        else:
+            lit = "(Some (%s, %s, %s, %s))" % (nsid(v[0]), cbool(v[1]), tref(v[2]), cbool(v[3]))
+        el.append("((%s, %s), %s, %s)" % (cN(1), cN(I(nm)), abs_tref(tr), lit))
+    return clist(tl, "qn * option (list fchild * list adecl)"), clist(el, "qn * tref * option (nsid * bool * tref * bool)")
+
+
+# ---------------------------------------------------------------------------
 # (3) the rendering-independence run
 # ---------------------------------------------------------------------------
 
-PRE_R = "From SV Require Import Lib.Base Fam.Schema C01.Marshal C01.Guard C01.Styles C07.Render."
+PRE_R = "From SV Require Import Lib.Base Fam.Schema C01.Marshal C01.Guard C01.Styles C07.Render C07.Concrete."
 
 KNOWN_A = "C07:split-block-global-element-not-top-level"
 KNOWN_B = "C07:xsi-prefix-bound-to-other-namespace"
@@ -1108,7 +1299,7 @@ def run_render(ck, unproved):
     n_ifaces = 36 if ck.tier == "quick" else 400
     K = 4 if ck.tier == "quick" else 6
     reps = 2 if ck.tier == "quick" else 4
-    W, B, R, PC, FC, EC = [], [], [], [], [], []       # (coq case, meta)
+    W, B, R, PC, FC, EC, SC = [], [], [], [], [], [], []       # (coq case, meta)
     deviations = {}                                     # finding key -> first payload
     feature_count = {}
 
@@ -1128,16 +1319,16 @@ def run_render(ck, unproved):
         S = iface.S
         kept = set(t.name for t in S.types if (t.ns, t.name) not in iface.anonymizable)
         base = Plan(rng, iface, baseline=True)
-        wsdl0, _ = render(iface, base)
+        wsdl0, blocks0 = render(iface, base)
         c0, err = load_client(wsdl0)
         if c0 is None:
             ck.failing_input("C07:baseline-load", "the plain rendering of a generated interface cannot be loaded: " + err,
                              {"part": "render", "wsdl": wsdl0.decode("utf-8"), "error": err})
             continue
-        rend = [(base, wsdl0, c0)]
+        rend = [(base, wsdl0, c0, blocks0)]
         for k in range(K):
             plan = Plan(rng, iface)
-            wsdl, _ = render(iface, plan)
+            wsdl, blocks = render(iface, plan)
             U.expat_parse(wsdl)                  # the renderer must write well-formed documents
             c, err = load_client(wsdl)
             for f in plan.features():
@@ -1149,23 +1340,27 @@ def run_render(ck, unproved):
                                  + err, deviations[key])
                 ck.seen(("load", si, k))
                 continue
-            rend.append((plan, wsdl, c))
+            rend.append((plan, wsdl, c, blocks))
         detail = {"baseline_wsdl": wsdl0.decode("utf-8")}
+        last_by_j = []
 
         def observe_all(label, observe, input_=None):
             """-> list of observations (baseline first); deviating renderings are
             attributed to a finding class."""
             res, keys = [], []
-            for j, (plan, wsdl, c) in enumerate(rend):
+            for j, (plan, wsdl, c, _) in enumerate(rend):
                 try:
                     res.append(observe(c))
                 except Exception as e:  # noqa
                     res.append(("harness-error", repr(e)))
+            by_j = [[] for _ in rend]
             for j in range(1, len(rend)):
                 if res[j] != res[0]:
                     d = dict(detail)
                     d["input"] = input_
-                    keys.append(deviation(iface, rend[j][0], rend[j][1], label, observe, res[0], res[j], d))
+                    by_j[j].append(deviation(iface, rend[j][0], rend[j][1], label, observe, res[0], res[j], d))
+                    keys.extend(by_j[j])
+            last_by_j[:] = by_j
             return res, keys
 
         # ---- service definition: ports, methods, wrapped flag, parameter definitions
@@ -1195,6 +1390,18 @@ def run_render(ck, unproved):
                        ("params " + op.name, keys if any(x != pls[0] for x in pls) else [], si)))
             ck.seen(("params", si, op.name))
             ck.count("parameter-lists")
+        # ---- the dereferenced schema objects, against the model run on the rendering as written
+        views, keys = observe_all("schema-objects", lambda c: obs_schema(iface, c))
+        by_j = list(last_by_j)
+        for j, (plan, wsdl, c, blocks) in enumerate(rend):
+            if not (isinstance(views[j], tuple) and len(views[j]) == 2 and isinstance(views[j][0], list)):
+                continue
+            I = F.new_interner()
+            tl, el = schema_view_lits(iface, I, views[j])
+            SC.append(("(mkSC %s %s %s %s)" % (concrete_lit(iface, plan, blocks, I), AbsPrinter(iface, I).schema(), tl, el),
+                       ("schema objects", by_j[j], si)))
+            ck.seen(("schema", si, j))
+            ck.count("schema-object-views")
         # ---- factory objects of every type that keeps its name
         for t in S.types:
             if (t.ns, t.name) in iface.anonymizable:
@@ -1342,6 +1549,7 @@ def run_render(ck, unproved):
     judge("params", PC, "pcase", "params_spec_ok")
     judge("factory", FC, "fcase", "factory_spec_ok")
     judge("observed", EC, "ecase", "equal_spec_ok")
+    judge("schema", SC, "scase", "schema_spec_ok", "schema_agrees")
 
 
 # ---------------------------------------------------------------------------
